@@ -115,7 +115,7 @@ package fiber
 // configDependentPaths: the only writer of path/detectionPath/treePathHash. The atcall clauses are the
 // intermediate facts (what is decoded / folded is a copy of THIS request's path, in the context's own buffer).
 //@ func (*DefaultCtx).configDependentPaths
-//@   props C05 C03 C02 C07
+//@   props C05 C03 C02 C07 C06
 //@   requires wf: ctxWF(c)
 //@   modifies c.path, c.detectionPath, c.treePathHash, elems(c.path), elems(c.detectionPath)
 //@   atcall @fasthttp.AppendUnquotedArg: decodes-this-path: str(src) == c.pathOriginal
@@ -133,6 +133,9 @@ package fiber
 //@   ensures detection-folds-path: len(c.detectionPath) <= len(c.path) && forall(k, 0, len(c.detectionPath), str(c.detectionPath)[k] == str(c.path)[k] || str(c.detectionPath)[k] == lowerb(str(c.path)[k]))
 //@   ensures buffers-allocated: (arr(c.path) == 0 || allocated(arr(c.path))) && (arr(c.detectionPath) == 0 || allocated(arr(c.detectionPath)))
 //@   ensures wf: arr(c.path) == 0 || arr(c.path) != arr(c.detectionPath)
+// [C06] the path is built in the buffer the context holds at the call or in one allocated here - never in storage that
+// existed before and belongs to something else (Path(override) relies on it: it hands in a buffer of its own)
+//@   ensures [C06] path-built-in-own-buffer-or-a-new-one: forallI(a, a == arr(c.path) ==> a == old(arr(c.path)) || !old(allocated(a)))
 
 // Everything a handler can read from a DefaultCtx right after AcquireCtx(fctx), field by field (every field of
 // the struct is classified here or in ctxWF; a new field must be added to one of them):
